@@ -250,6 +250,27 @@ func init() {
 	})
 }
 
+func init() {
+	register(&Property{
+		ID:          "C09",
+		Patterns:    append([]string{"github.com/ory/keto/internal/expand"}, enginePatterns...),
+		HarnessDirs: []string{"internal/check/zzverif"},
+		ReplayTags:  "sqlite",
+		Assumptions: []string{"storage = MemStore (spec of relationtuple.Manager), page size 100 / 1 / 2", "schemaless namespace (no rewrites)", "reference: bounded reachability over the symbolic rows as a formula"},
+		Outside:     []string{"more rows / objects than the bound", "nodes with more than 100 children", "ToTree string mapping (C16)", "REST/gRPC expand handlers (C13)"},
+		Runs: func(tier string) []Run {
+			r := engineRun("expand", "HarnessC09", map[string]int64{"K": 3, "objs": pick(tier, 2, 3), "Gmax": pick(tier, 4, 5), "symbolicDepth": pick(tier, 0, 1), "pageSizes": pick(tier, 2, 3), "crossCheck": 1, "diamond": 0})
+			r.Reach = []string{"c09.expanded"}
+			d := engineRun("diamonds", "HarnessC09", map[string]int64{"K": 4, "objs": 2, "Gmax": pick(tier, 3, 4), "symbolicDepth": 0, "pageSizes": pick(tier, 1, 2), "crossCheck": 0, "diamond": pick(tier, 1, 0)})
+			d.Reach = []string{"c09.expanded"}
+			return []Run{r, d}
+		},
+		Bounds: func(tier string) map[string]interface{} {
+			return map[string]interface{}{"rows": pick(tier, 3, 4), "objects": pick(tier, 2, 3), "global depth": "1.." + itoa(pick(tier, 4, 5)), "request depth": []string{"0", "symbolic int"}[pick(tier, 0, 1)], "page sizes": "100, 1" + []string{"", ", 2"}[pick(tier, 0, 1)]}
+		},
+	})
+}
+
 func itoa(n int64) string {
 	s := ""
 	if n == 0 {
